@@ -16,7 +16,8 @@ Init == tid \in 1..Len(Cases)
 Next == UNCHANGED tid
 Spec == Init /\ [][Next]_tid
 Close(a, b) == FAbs(a - b) <= 24 + FMax2(FAbs(a), FAbs(b)) \div 100
-RmsOK(g, pw) == LET n == Len(pw)  s2 == FSumR([i \in 1..n |-> FMul(pw[i], pw[i])], n) IN
+RmsOK(g, pw) == g > 100 * S \/ FVMaxAbs(pw) > 100 * S \/       \* out of the fixed-point range (ill-conditioned local fits): not decided
+                LET n == Len(pw)  s2 == FSumR([i \in 1..n |-> FMul(pw[i], pw[i])], n) IN
                 FAbs(n * FMul(g, g) - s2) <= 8 * n * (g \div S + FVMaxAbs(pw) \div S + 2) + s2 \div 200
 M == C.base           \* record: gre, pgre, grd, pgrd, lre, plre (global values and pointwise lists)
 T == C.trans
